@@ -663,6 +663,46 @@ CHECKS = {
         "assumptions": ["arguments a go-redis program could not pass (odd key/value lists, wrongly typed variadics) may make the adapter panic while queuing; that is not judged",
                         "when Exec itself reports a transport or context error the individual results are not judged"],
     },
+    "C23": {
+        "level": "exploration",
+        "rule": ("one run = one real sentinelClient (primary only / SendToReplicas split / ReplicaOnly) against three model sentinels and three data nodes "
+                 "(one master, two replicas sharing its data) under one seeded schedule; 2-5 tasks issue attributable Do/DoMulti/DoStream/DoMultiStream/DoCache "
+                 "traffic while a seeded story unfolds: failovers with +switch-master announced by each sentinel in its own time (roles first, or announcement "
+                 "first so that the ROLE check meets a node that is not a master yet), role flips nobody announces, sentinels with stale or diverging views "
+                 "(also before the client exists), +slave/+sdown/-sdown/+reboot/+sentinel events, loss and return of a data node or a sentinel, resets/EOFs of "
+                 "single sentinel, master and replica connections (also after the server executed); then faults stop, every sentinel agrees on a final master, "
+                 "+switch-master to it is delivered, the client is left to settle and four fresh writes are issued. The client's connections are labelled (in-package "
+                 "connFn) with the role it opened them for. Oracle from the model's logs: every user command on the primary path (mode and SendToReplicas "
+                 "predicate of the plan) arrived on a logical connection whose most recent ROLE answer the client had received before writing the command was "
+                 "'master' ('slave' for the replica path), at an address some sentinel had named as master to this client before (GET-MASTER-ADDR-BY-NAME reply, "
+                 "+switch-master or +reboot master event); no command without a received ROLE answer; after the delivered final +switch-master and the quiet "
+                 "period every fresh write that reaches a node reaches the final master and the last one does reach it; "
+                 "non-trivial = commands were judged and a +switch-master was delivered or a ROLE check refused a node; distinct = distinct event-log hash"),
+        "parts": [
+            {"module": "rueidis", "scenario": "sentinel-follow", "quick": 5000, "thorough": 400000},
+            {"module": "rueidis", "scenario": "sentinel-follow", "variant": "calm", "quick": 1000, "thorough": 100000},
+        ],
+        "expected_probes": ["switch-master-delivered", "role-check-refused-node", "sentinels-named-different-masters", "event-deferred-while-mutex-busy",
+                            "primary-traffic-met-demoted-node", "sentinel-lost", "node-lost", "connection-lost", "liveness-judged"],
+        "components": {"real": REAL, "stubs": STUBS},
+        "assumptions": [
+            "'that connection' is the client's logical connection to an address (one multiplexer: its pipelined connection plus its pooled connections, including "
+            "connections the multiplexer re-dials to the same address without a new ROLE check); the ROLE answer counts from the step in which its last byte was delivered to the client",
+            "sentinelClient.mu is a sync.Mutex held across network I/O: while a refresh is in flight or the mutex is held (both observed in-package at quiescence) sentinel events "
+            "are not published, Close is not started and sentinel connections are broken only if the holder is a refresh; while a subscription goroutine has not yet sent its "
+            "SUBSCRIBE, events are deferred too (two live subscriptions would run two callbacks for one event, the second blocking on the held mutex); deferred operations are never dropped; "
+            "events are delivered in the step in which they are published. Role flips, view changes, node loss and data-connection faults are not gated",
+            "a refresh that cannot succeed retries without pause: the main phase is cut 1200 scheduler steps after the last planned operation, then the world is repaired",
+            "liveness is judged only when the final +switch-master reached a live subscription of the client and the client settled (no refresh in flight, nothing pending) within "
+            "4000 scheduler steps / 30 s of idle fake time; ReplicaOnly clients and SendToReplicas=always have no primary path and are not judged for it",
+            "dedicated clients and blocking commands are not part of the workload (a dedicated connection stays pinned to its node by design); RESP3 only; one wire per multiplexer",
+            "pickReplica draws from the seeded util.FastRand seam",
+            "determinism self-test (vcheck.py selftest determinism sentinel-follow): variant calm 200 seeds x 9 processes 0 divergent; default variant 1 of 200 seeds divergent "
+            "(seed 424365, 6 of 96 repetitions under load). Source: the clean-up loop of a dead pipe (one fake millisecond per turn) races with the exit of that pipe's writer "
+            "goroutine, so a caller of a connection that was reset during its HELLO is released at T or T+1 ms and one idle tick appears or not before the next lock grant; "
+            "verdicts did not differ. No barrier was added here (the scheduler-level Settle barrier is to be switched on for this scenario by the lead)",
+        ],
+    },
     "C39": {
         "level": "exploration",
         "rule": ("plans: 2-3 real CacheAsideClients (each with its own rueidis client on one pipelined connection; lock variant per client: plain SET NX GET PX or the "
@@ -809,3 +849,36 @@ CHECKS = {
         ],
     },
 }
+
+# ---- C21: sentinel + standalone parts (builder ag-sentinel), added to the entry that holds the cluster part ----
+_C21_SS = {
+    "rule": ("standalone part (standalone-route): 1-3 standalone clients with 1-3 configured replicas (the model's primary and replicas share one dataset), SendToReplicas "
+                 "predicates that are pure functions of the command (read-only flag, a marker in the arguments, always, never; every call is logged), with and without "
+                 "EnableReplicaAZInfo (= non-empty / empty candidate list), with and without a constant ReadNodeSelector returning 0, an in-range replica index, one past the "
+                 "end, far out or a negative number; 2-5 tasks issue Do, DoMulti (uniform and mixed opt-in), DoStream, DoMultiStream, DoCache and Receive with attributable "
+                 "commands; a third of the plans reset connections. Oracle: a command the model received on a configured replica (role slave) belongs to a call for "
+                 "which the predicate is true for every command; when the selector's result lies outside the candidate list it was given, every command of that client is "
+                 "received by the primary. sentinel part (sentinel-follow, see C23): a command received on a connection the client opened as replica connection, or on a "
+                 "node that had answered ROLE as slave on that connection, belongs to a call for which SendToReplicas is true for every command or the client is ReplicaOnly; "
+                 "non-trivial = commands were judged and a replica served one, a batch had partial opt-in, or a selector result was out of range; distinct = distinct event-log hash"),
+    "parts": [
+        {"module": "rueidis", "scenario": "standalone-route", "quick": 5000, "thorough": 300000},
+        {"module": "rueidis", "scenario": "sentinel-follow", "quick": 2500, "thorough": 100000},
+    ],
+    "expected_probes": ["replica-served", "batch-with-partial-opt-in", "selector-negative", "selector-past-the-end", "selector-empty-candidate-list",
+                        "selector-chose-replica", "stream-on-replica", "batch-on-replica"],
+    "assumptions": [
+        "standalone part: standalone.pick uses the unseedable math/rand/v2 when several replicas are configured without a selector: such plans always carry a selector, and selectors are constant functions",
+        "sentinel part: a node that was demoted after the client's ROLE check may receive primary-path commands until the client learns of it; that is counted, not judged",
+        "standalone part: cached reads of the standalone client always go to the primary; that is allowed by the property (replicas only WITH opt-in, not always with opt-in)",
+        "standalone part: EnableRedirect (which excludes ReplicaAddress) is not exercised",
+    ],
+}
+if "C21" in CHECKS:
+    CHECKS["C21"]["rule"] = CHECKS["C21"]["rule"] + " || " + _C21_SS["rule"]
+    CHECKS["C21"]["parts"] = CHECKS["C21"]["parts"] + _C21_SS["parts"]
+    CHECKS["C21"]["expected_probes"] = CHECKS["C21"].get("expected_probes", []) + _C21_SS["expected_probes"]
+    CHECKS["C21"]["assumptions"] = CHECKS["C21"].get("assumptions", []) + _C21_SS["assumptions"]
+else:
+    CHECKS["C21"] = dict(_C21_SS, level="exploration", components={"real": REAL, "stubs": STUBS})
+# ---- end of the ag-sentinel block ----
